@@ -290,6 +290,7 @@ func verdict(prop, tier string, seed int, reports []*entryReport, broken []strin
 		queries["answered_syntactically_from_path_condition"] += rr.SynHits
 		queries["escalated_to_one_shot_solving"] += rr.OneShot
 		queries["escalated_to_second_solver_family"] += rr.AltSolver
+		queries["incremental_solver_restarts_after_solver_error"] += rr.SolverRestarts
 		for _, f := range r.Funcs {
 			funcs[f] = true
 		}
